@@ -196,7 +196,7 @@ SOp(e) ==
                            : ru \in 0..(IF S.oP THEN S.cI ELSE 0)}
              IN Strict("clone_from", e, Post(e, e.d) \in cands /\ Post(e, s) = S, <<S, D, Post(e, e.d), cands>>)
       [] e.op \in {"Extend", "FromIter"} ->
-             IF Panicked(e) THEN TRUE
+             IF Panicked(e) \/ e.big = 1 THEN TRUE
              ELSE LET hint == e.hint
                       fresh == e.op = "FromIter"
                       P0 == IF fresh
